@@ -116,17 +116,31 @@ func (diag diagnosticInSourcePackage) Severity() DiagSeverity {
 
 func (diag diagnosticInSourcePackage) Source() DiagSource {
 	ret := diag.wrapped.Source()
-	if ret.Subject != nil && sourceaddrs.ValidSubPath(ret.Subject.Filename) {
-		newRng := *ret.Subject // shallow copy
-		newRng.Filename = diag.pkg.SourceAddr(newRng.Filename).String()
-		ret.Subject = &newRng
+	if ret.Subject != nil {
+		if subPath, ok := packageSubPath(ret.Subject.Filename); ok {
+			newRng := *ret.Subject // shallow copy
+			newRng.Filename = diag.pkg.SourceAddr(subPath).String()
+			ret.Subject = &newRng
+		}
 	}
-	if ret.Context != nil && sourceaddrs.ValidSubPath(ret.Context.Filename) {
-		newRng := *ret.Context // shallow copy
-		newRng.Filename = diag.pkg.SourceAddr(newRng.Filename).String()
-		ret.Context = &newRng
+	if ret.Context != nil {
+		if subPath, ok := packageSubPath(ret.Context.Filename); ok {
+			newRng := *ret.Context // shallow copy
+			newRng.Filename = diag.pkg.SourceAddr(subPath).String()
+			ret.Context = &newRng
+		}
 	}
 	return ret
+}
+
+// packageSubPath turns a file name as a dependency finder sees it, relative
+// to the root of the fs.FS it was given, into a sub-path of the package. The
+// root itself is "." to an fs.FS and the empty sub-path to a source address.
+func packageSubPath(filename string) (string, bool) {
+	if filename == "." {
+		return "", true
+	}
+	return filename, sourceaddrs.ValidSubPath(filename)
 }
 
 // internalDiagnostic is a diagnostic type used to report this package's own
